@@ -87,6 +87,14 @@ func c13GenDest(t *rapid.T, name string) fxDest {
 		switch v := rapid.IntRange(0, 9).Draw(t, rl+"/variant"); {
 		case v == 0:
 			ru.SampleRate = rapid.IntRange(1, 10).Draw(t, rl+"/samplerate")
+		case (v == 2 || v == 3) && len(d.Rules) > 0 && d.Rules[len(d.Rules)-1].Def != nil && d.Rules[len(d.Rules)-1].Def.isThroughput():
+			// sibling of the previous rule: the same definition except for UseClusterSize
+			// (two different definitions: each must keep its own goal). Such pairs used to be
+			// excluded while C12's "tuning parameters not in the sharing key" finding stood.
+			cp := *d.Rules[len(d.Rules)-1].Def
+			cp.Fields = append([]string(nil), cp.Fields...)
+			cp.UseClusterSize = !cp.UseClusterSize
+			ru.Def = &cp
 		case v == 1 && len(d.Rules) > 0 && d.Rules[len(d.Rules)-1].Def != nil:
 			// identical copy of the previous rule's definition (may share an instance; same goal either way)
 			cp := *d.Rules[len(d.Rules)-1].Def
@@ -127,21 +135,9 @@ func c13Mutate(t *rapid.T, prev fxRules) fxRules {
 		if r.Dests[i].Top != nil && r.Dests[i].Top.isThroughput() {
 			defs = append(defs, r.Dests[i].Top)
 		}
-		// only rules whose definition is not an identical copy of a neighbour
 		for j := range r.Dests[i].Rules {
-			ru := r.Dests[i].Rules[j]
-			if ru.Def == nil || !ru.Def.isThroughput() {
-				continue
-			}
-			dup := false
-			for k := range r.Dests[i].Rules {
-				o := r.Dests[i].Rules[k]
-				if k != j && o.Def != nil && fmt.Sprint(fxSortedFields(o.Def.Fields)) == fmt.Sprint(fxSortedFields(ru.Def.Fields)) {
-					dup = true
-				}
-			}
-			if !dup {
-				defs = append(defs, r.Dests[i].Rules[j].Def)
+			if d := r.Dests[i].Rules[j].Def; d != nil && d.isThroughput() {
+				defs = append(defs, d)
 			}
 		}
 	}
@@ -440,7 +436,7 @@ func TestC13(t *testing.T) {
 			"'current number of peers' = length of Peers.GetPeers() (includes this node); peer counts >= 1 only",
 			"peer-count changes reach the factory through the RegisterUpdatedPeersCallback callbacks, as with the real peer implementations; in overlap steps two callbacks run on their own goroutines (as with redis peers) and the verdict is taken from the goals after both have finished",
 			"live = referenced from a worker's sampler cache; reload = ClearDynsamplers then all worker caches cleared, atomically",
-			"definitions that would collide under the known C12 finding (same destination, type, goal and field set, different tuning) are not generated",
+			"sibling rules that differ only in UseClusterSize (or only in the goal) are generated on purpose: they are different definitions and each must keep its own goal; identical copies may share an instance and then have the same goal anyway",
 			"GoalThroughputPerSec is read through sample/verif_hooks_c12.go while no callback is running",
 		},
 		Gen:   genC13,
